@@ -59,10 +59,10 @@ Definition wf_maxapps (root : queue) : bool :=
                    forallb (fun c => negb (N.eqb (q_maxapps c) 0) && N.leb (q_maxapps c) (q_maxapps q)) (q_queues q)) root.
 (* W8 user/group limits: well formed, within the queue's max applications and maximum *)
 Definition limit_shape (l : limit) : bool :=
-  negb (is_nil (users l) && is_nil (groups l)) &&
+  negb (nilb (users l) && nilb (groups l)) &&
   forallb (fun u => str_eqb u s_star || userNameOK u) (users l) &&
   forallb (fun g => str_eqb g s_star || groupNameOK g) (groups l) &&
-  negb (N.eqb (l_maxapps l) 0 && is_nil (omap_list (l_maxres l))).
+  negb (N.eqb (l_maxapps l) 0 && nilb (omap_list (l_maxres l))).
 Definition wf_limit_queue (root : queue) : bool :=
   allq (fun _ q => forallb (fun l => limit_shape l &&
                                      (N.eqb (q_maxapps q) 0 || N.leb (l_maxapps l) (q_maxapps q)) &&
@@ -108,7 +108,7 @@ Definition wf_limit_wild_apps (root : queue) : bool := limits_vs_wildcards apps_
 (* W11 placement rules resolvable: the static part of every rule chain (fixed rules up to the first dynamic rule,
    read the way the placement manager reads them: lower case) leads to a leaf (to a parent when a dynamic rule
    follows), or stops below a parent where the missing queues can be created *)
-Definition eff_parent (q : queue) : bool := q_parent q || negb (is_nil (q_queues q)).
+Definition eff_parent (q : queue) : bool := q_parent q || negb (nilb (q_queues q)).
 Fixpoint descend (parts : list str) (q : queue) : queue * list str :=
   match parts with
   | [] => (q, [])
